@@ -118,7 +118,7 @@ func c02Templates(tier string) []string {
 		}
 	}
 	// every kind of statement followed by every kind of statement (separators in both modes)
-	prevs := []string{"a", "a++", "f(a)", "a[0]", "\"s\"", "1", "x = 1", "{a:b}", "[a]", "a.b", "func(){}", "f = x => x", "-a", "a + b", "if a {b}", "for a {b}", "return a", "len(a)", "a--", "x := [1]", "1.5", "true"}
+	prevs := []string{"a", "a++", "f(a)", "a[0]", "\"s\"", "1", "x = 1", "{a:b}", "[a]", "a.b", "func(){}", "f = x => x", "-a", "a + b", "if a {b}", "for a {b}", "return a", "len(a)", "a--", "x := [1]", "1.5", "true", "return", "break", "continue", "x = a--", "-a--", "a++"}
 	nexts := []string{"[b][0]", "[b] + [c]", "[b]", "(b) + c", "(b)", "-b", "+b", "!b", "++b", "--b", "^b", "~b", "{b:c}", "{b:c}[b]", "\"t\"", "b", "1", ".5", "f(b)", "if b {c}", "for b {c}", "func(){b}", "func g(){b}", "x => x", "(x, y) => x", "b++", "b = 1", "return", "len(b)", "[b][0] = 1"}
 	for _, pv := range prevs {
 		for _, nx := range nexts {
@@ -192,7 +192,7 @@ func init() {
 			},
 			Budget: map[string]time.Duration{"quick": 8 * time.Minute, "thorough": 60 * time.Minute},
 			Reach:  []string{"input parses"},
-			Bounds: map[string]interface{}{"skeletons": "20 operand forms (call, index, dot, builtin, postfix, prefix, literals, lambda call...) on either side of a parenthesised lower-precedence operand for 8 operator pairs; 22 kinds of statement followed by 30 kinds of statement with ; and newline separators; every ordered pair of 21 infix operators in 5 parent/child shapes (left, right, parenthesised either side, under a call, in a list); every prefix x infix combination in 6 shapes; every infix operator against index, dot, slice, call, lambda, postfix, map, statement boundary, builtin, function, if-expression; prefix pairs; ~250 statement-kind, literal, spacing, separator and comment-position skeletons",
+			Bounds: map[string]interface{}{"skeletons": "20 operand forms (call, index, dot, builtin, postfix, prefix, literals, lambda call...) on either side of a parenthesised lower-precedence operand for 8 operator pairs; 28 kinds of statement followed by 30 kinds of statement with ; and newline separators; every ordered pair of 21 infix operators in 5 parent/child shapes (left, right, parenthesised either side, under a call, in a list); every prefix x infix combination in 6 shapes; every infix operator against index, dot, slice, call, lambda, postfix, map, statement boundary, builtin, function, if-expression; prefix pairs; ~250 statement-kind, literal, spacing, separator and comment-position skeletons",
 				"symbolic_bytes": "55 skeletons with 1-2 arbitrary bytes ('@'): string / raw string / comment contents, identifier and number bytes, the byte before ( [ - and between statements, operator positions - all 256 values per byte",
 				"modes":          "normal and compact"},
 			Outside: []string{"nesting deeper than the skeletons (the property's 'arbitrary nesting' is not reached by this technique)", "interactions needing three or more specific constructs in a row"},
